@@ -249,6 +249,26 @@ func recordConv(proto string) []Step {
 	return c
 }
 
+// backChannelConv: a player that sets up the back channel of the stream (media 2 of the description served for
+// this conversation), sends one packet on it, waits for the server's receiver report and answers with a
+// receiver report of its own whose reception report names the SSRC the server has just disclosed.
+func backChannelConv(proto string) []Step {
+	sess := Hdr{"Session", "{S}"}
+	c := []Step{
+		req("OPTIONS", "OPTIONS", baseURL, 1),
+		req("DESCRIBE", "DESCRIBE", baseURL, 2, Hdr{"Accept", "application/sdp"}, Hdr{"Require", "www.onvif.org/ver20/backchannel"}),
+		req("SETUP2", "SETUP", baseURL+"/trackID=2", 3, Hdr{"Transport", transportFor(proto, 0, false)}, Hdr{"Require", "www.onvif.org/ver20/backchannel"}),
+		req("PLAY", "PLAY", baseURL, 4, sess, Hdr{"Range", "npt=0.000-"}),
+	}
+	if proto == "tcp" {
+		c = append(c, frameStep("FRAME-RTP", 0, rtpPacket(0, 1, 0x5678, 16)), Step{Kind: "rr-echo", Name: "RR-ECHO", Port: 0})
+	} else {
+		c = append(c, Step{Kind: "udp", Name: "UDP-RTP", Raw: rtpPacket(0, 1, 0x5678, 16), Port: 35466}, Step{Kind: "rr-echo", Name: "RR-ECHO", Port: 35467})
+	}
+	c = append(c, req("GET_PARAMETER", "GET_PARAMETER", baseURL, 5, sess), req("TEARDOWN", "TEARDOWN", baseURL, 6, sess))
+	return c
+}
+
 func authConv() []Step {
 	return []Step{
 		req("OPTIONS", "OPTIONS", baseURL, 1),
@@ -348,7 +368,7 @@ func convsFor(tls bool) []string {
 	return convNames
 }
 
-var convNames = []string{"play-tcp", "play-udp", "record-tcp", "record-udp", "http-tunnel", "websocket", "auth-describe", "play-tcp-stalled", "http-tunnel-burst"}
+var convNames = []string{"play-tcp", "play-udp", "record-tcp", "record-udp", "http-tunnel", "websocket", "auth-describe", "play-tcp-stalled", "http-tunnel-burst", "play-backchannel-tcp", "play-backchannel-udp"}
 
 // burstConv: the halves of an HTTP tunnel arriving in a burst. Five rounds; in each, one GET half is
 // registered, then FOUR connections send the POST half with the same cookie back to back (no barrier in
@@ -403,6 +423,10 @@ func baseConv(name string) []Step {
 		return wsConv()
 	case "auth-describe":
 		return authConv()
+	case "play-backchannel-tcp":
+		return backChannelConv("tcp")
+	case "play-backchannel-udp":
+		return backChannelConv("udp")
 	case "play-tcp-secure":
 		return secure(playConv("tcp"))
 	case "record-tcp-secure":
